@@ -107,7 +107,7 @@ func RunC07(cfg simrt.Config, o world.Opts) *world.Result {
 	}
 	h := world.NewHasher()
 	s.Inline(func() {
-		p := progen.Gen(progen.Options{MaxFiles: 4, MaxDefs: 6, Consts: true, ConstRefs: true, Cyclic: true, Unions: true, Exceptions: true,
+		p := progen.Gen(progen.Options{MaxFiles: 4, MaxDefs: 6, CapsWords: true, Consts: true, ConstRefs: true, Cyclic: true, Unions: true, Exceptions: true,
 			Defaults: true, Dotted: true, Invalid: true, Recursive: true, SameNames: true, StructConsts: true, RecDefaults: true})
 		if o.Trace {
 			for _, l := range strings.Split(p.Describe(), "\n") {
